@@ -484,6 +484,19 @@ Fixpoint work_st (cs : list cfg) (sts : list lm_state) (bulk : list task) : list
   | t :: r => let '(sts', h) := handle_st cs sts t in h :: work_st cs sts' r
   end.
 
+(* a sequence of bulks on one executor / resource manager *)
+Fixpoint after_bulk (cs : list cfg) (sts : list lm_state) (bulk : list task) : list lm_state :=
+  match bulk with
+  | [] => sts
+  | t :: r => after_bulk cs (fst (handle_st cs sts t)) r
+  end.
+
+Fixpoint work_seq (cs : list cfg) (sts : list lm_state) (bulks : list (list task)) : list (list handled) :=
+  match bulks with
+  | [] => []
+  | b :: r => work_st cs sts b :: work_seq cs (after_bulk cs sts b) r
+  end.
+
 (* fresh launcher objects *)
 Definition fresh (cs : list cfg) : list lm_state := map (fun _ => []) cs.
 Definition handle (cs : list cfg) (t : task) : handled := snd (handle_st cs (fresh cs) t).
